@@ -13,6 +13,7 @@ func stream(sub, where, sel string) model.Op {
 	return model.Op{K: "stream", Sub: sub, Tgt: where, Sel: sel}
 }
 func pullW(sub string, max int) model.Op { return model.Op{K: "pull", Sub: sub, Max: max, Tgt: "wait"} }
+func pullAbandon(sub string) model.Op { return model.Op{K: "pull", Sub: sub, Max: 10, Tgt: "abandon"} }
 func reconfig(sub, what string) model.Op { return model.Op{K: "reconfig", Sub: sub, Tgt: what} }
 func snap(sub, name string) model.Op     { return model.Op{K: "snap", Sub: sub, Name: name} }
 func seekS(sub, name string) model.Op    { return model.Op{K: "seekS", Sub: sub, Name: name} }
@@ -115,12 +116,13 @@ func init() {
 				ID: "C01/idle-past-ttl", Prop: "C01", Depth: d(tier, 5, 6), Drain: true,
 				Cfg: model.Cfg{Topics: []string{"T0"}, Subs: []model.SubCfg{
 					{Name: "S0", Topic: "T0", TTL: 2 * time.Minute, Retention: 10 * time.Minute},
-					{Name: "S1", Topic: "T0", TTL: time.Hour},
+					// (a TTL LONGER than the retention: the two durations must not be confused)
+					{Name: "S1", Topic: "T0", TTL: time.Hour, Retention: 10 * time.Minute},
 				}},
 				Alphabet: []model.Op{
 					pub1("T0", "", 0),
 					pull("S0", 10), pull("S1", 10), ack("S0", "all"),
-					tick("ttl-"), tick("ttl+"), tick("lease+"),
+					tick("ttl-"), tick("ttl+"), tick("lease+"), tick("ret+"),
 					job("delete-expired-subscriptions", 0, 100), mkSub("S0"),
 				},
 			},
@@ -226,6 +228,20 @@ func init() {
 					stream("S0", "plain", ""), stream("S0", "open-ack", "oldest"), stream("S0", "open-ack", "all"), stream("S0", "later-ack", "oldest"), stream("S0", "later-ack", "stale"),
 					stream("S0", "open-nack", "oldest"), stream("S0", "later-nack", "all"), stream("S0", "later-extend", "all"), stream("S0", "open-ack", "mixed"),
 					ack("S0", "oldest"), tick("lease+"),
+				},
+			},
+			{
+				// a subscription idle past its TTL but not yet swept is alive for every
+				// operation: acks, nacks and deadline changes on it take effect
+				ID: "C03/idle-past-ttl", Prop: "C03", Depth: d(tier, 6, 7), Drain: true,
+				Cfg: model.Cfg{Topics: []string{"T0"}, Subs: []model.SubCfg{
+					{Name: "S0", Topic: "T0", TTL: 2 * time.Minute, Retention: 20 * time.Minute},
+				}},
+				Alphabet: []model.Op{
+					pub1("T0", "", 0), pull("S0", 10),
+					ack("S0", "oldest"), ack("S0", "all"), modack("S0", "all", 0), modack("S0", "all", 60*time.Second), nack("S0", "oldest"),
+					tick("ttl+"), tick("lease+"),
+					job("delete-expired-subscriptions", 0, 100),
 				},
 			},
 			{
@@ -468,6 +484,20 @@ func init() {
 				},
 			},
 			{
+				// a Pull that the client abandons while the server waits is still a pull:
+				// it restarts the idle clock by the TTL (not by anything else)
+				ID: "C14/abandoned-pull", Prop: "C14", Depth: d(tier, 5, 6), Drain: true,
+				Cfg: model.Cfg{Topics: []string{"T0"}, Subs: []model.SubCfg{
+					{Name: "S0", Topic: "T0", Retention: 10 * time.Minute, TTL: time.Hour},
+					{Name: "S1", Topic: "T0", Retention: time.Hour, TTL: 2 * time.Minute},
+				}},
+				Alphabet: []model.Op{
+					pub1("T0", "", 0), pull("S0", 10), pullAbandon("S0"), pullAbandon("S1"),
+					job("delete-expired-subscriptions", 0, 100),
+					tick("ret+"), tick("ttl-"), tick("ttl+"),
+				},
+			},
+			{
 				// blocking pulls that are still waiting when a lease lapses / the
 				// retention ends / the delay ends
 				ID: "C14/blocking-pulls", Prop: "C14", Depth: d(tier, 5, 6), Drain: true,
@@ -513,7 +543,7 @@ func init() {
 			pub1("T0", "K1", 0), pub1("T0", "", 1),
 			pull("S0", 1), pull("S0", 10), pull("S1", 10),
 			ack("S0", "oldest"), ack("S0", "all"), ack("S1", "all"), nack("S0", "oldest"),
-			seekT("S0", "before-all"),
+			seekT("S0", "before-all"), seekT("S0", "after-0"),
 			tick("lease+"), tick("+1h"), tick("ret+"),
 		}, jobs(0, 1, "prune-completed-deliveries", "prune-expired-deliveries", "prune-completed-messages")...)
 		a = append(a, jobs(0, 100, "prune-completed-deliveries", "prune-expired-deliveries", "prune-completed-messages")...)
